@@ -18,13 +18,16 @@
 EXTENDS Naturals, Integers, Sequences, FiniteSets, TLC
 
 CONSTANTS MaxRows,
+          CheckShort,    \* TRUE: a later data set of the frame with fewer rows than are to be loaded is refused (this tree, F40); FALSE: before -
+                         \* the rows are cut from it all the same (a single row was broadcast, other lengths failed inside numpy)
           CheckBounds    \* TRUE: a negative from_idx and a chunk size below 1 are refused (this tree); FALSE: the behaviour before
                          \* that repair - no chunk is cut for a chunk size below 1 and the write ends without rows
 
 NoChunk == 100           \* input_chunk_size = None
 
 VARIABLES
-  total,     \* rows in the source
+  total,     \* rows in the source (its first data set: the row count is taken from there)
+  total2,    \* rows of a later data set of the same frame
   from, to,  \* window (to = -1: open ended)
   chunk,     \* input_chunk_size (NoChunk = None; 0 and negative values are what a caller may pass by mistake)
   kind,      \* "copy" | "fast"
@@ -38,10 +41,11 @@ VARIABLES
   aliased,   \* some chunk handed out was a view of the caller's array
   written    \* the model wrote through such a view (never)
 
-vars == << total, from, to, chunk, kind, pc, nrows, full, rem, ci, pending, out, i, aliased, written >>
+vars == << total, total2, from, to, chunk, kind, pc, nrows, full, rem, ci, pending, out, i, aliased, written >>
 
 Init ==
   /\ total \in 1..MaxRows
+  /\ total2 \in 1..(MaxRows + 1)
   /\ from \in (-2)..MaxRows
   /\ to \in {-1} \cup (0..(MaxRows + 1))
   /\ chunk \in {NoChunk} \cup ((-2)..(MaxRows + 1))
@@ -55,7 +59,7 @@ ToIdx == IF to = -1 THEN total ELSE to
 Setup ==
   /\ pc = "init"
   /\ LET n == ToIdx - from IN
-     IF from >= total \/ n < 1 \/ (CheckBounds /\ (from < 0 \/ (chunk # NoChunk /\ chunk < 1)))
+     IF from >= total \/ n < 1 \/ (CheckShort /\ total2 < ToIdx) \/ (CheckBounds /\ (from < 0 \/ (chunk # NoChunk /\ chunk < 1)))
      THEN pc' = "raised" /\ UNCHANGED << nrows, full, rem >>
      ELSE IF chunk # NoChunk /\ chunk < 1
      THEN pc' = "done" /\ UNCHANGED << nrows, full, rem >>      \* (historical) divmod by a negative size: no chunk, no rows, no error
@@ -63,7 +67,7 @@ Setup ==
           /\ IF chunk = NoChunk THEN full' = 1 /\ rem' = 0
              ELSE full' = n \div chunk /\ rem' = n % chunk
           /\ pc' = "gen"
-  /\ UNCHANGED << total, from, to, chunk, kind, ci, pending, out, i, aliased, written >>
+  /\ UNCHANGED << total, total2, from, to, chunk, kind, ci, pending, out, i, aliased, written >>
 
 (* load_chunk(start, stop): rows of the source addressed by the chunk      *)
 ChunkRows(start, stop) == [k \in 1..(stop - start) |-> from + start + k - 1]
@@ -79,7 +83,7 @@ LoadChunk ==
              /\ ci' = ci + 1
              /\ aliased' = (aliased \/ kind = "fast")
              /\ UNCHANGED pc
-  /\ UNCHANGED << total, from, to, chunk, kind, nrows, full, rem, out, i, written >>
+  /\ UNCHANGED << total, total2, from, to, chunk, kind, nrows, full, rem, out, i, written >>
 
 (* MultiFrameData.__next__: one FrameData per row of the chunk             *)
 NextFrameData ==
@@ -87,18 +91,18 @@ NextFrameData ==
   /\ i' = i + 1
   /\ out' = Append(out, [row |-> Head(pending), fno |-> i + 1])
   /\ pending' = Tail(pending)
-  /\ UNCHANGED << total, from, to, chunk, kind, pc, nrows, full, rem, ci, aliased, written >>
+  /\ UNCHANGED << total, total2, from, to, chunk, kind, pc, nrows, full, rem, ci, aliased, written >>
 
 Finish ==
   /\ pc = "gen" /\ i >= nrows
   /\ pc' = "done"
-  /\ UNCHANGED << total, from, to, chunk, kind, nrows, full, rem, ci, pending, out, i, aliased, written >>
+  /\ UNCHANGED << total, total2, from, to, chunk, kind, nrows, full, rem, ci, pending, out, i, aliased, written >>
 
 Next == Setup \/ LoadChunk \/ NextFrameData \/ Finish
 Spec == Init /\ [][Next]_vars
 
 (* ======================= obligations ===================================== *)
-ValidWindow == from >= 0 /\ from < total /\ ToIdx <= total /\ ToIdx - from >= 1
+ValidWindow == from >= 0 /\ from < total /\ ToIdx <= total /\ ToIdx - from >= 1 /\ ToIdx <= total2
 ValidChunk  == chunk = NoChunk \/ chunk >= 1
 
 (* C03 / C11: exactly the rows of the window, in order, numbered from 1     *)
@@ -117,4 +121,6 @@ InOrder == \A k \in DOMAIN out : out[k].row = from + k - 1 /\ out[k].fno = k
 
 (* C19: nothing is written through a view of the caller's data              *)
 NoWriteThrough == ~written
+(* every row served exists in the later data set too (C12: unequal row counts; longer later data sets are known finding K02) *)
+SecondColumn == \A k \in DOMAIN out : out[k].row < total2
 =====================================================================================
